@@ -571,7 +571,7 @@ VARIANTS = [
     ("getstate_drop_routes", _O, "            self._default_route,\n            self._routes,\n        )\n\n    def __setstate__", "            self._default_route,\n        )\n\n    def __setstate__", "break", "R-REPR.c"),
     ("setstate_swapped", _O, "            self._default_route,\n            self._routes,\n        ) = state", "            self._routes,\n            self._default_route,\n        ) = state", "break", "R-REPR.c"),
     ("field_renamed", "pydcop/algorithms/mgm.py", "        self._random_nb = random_nb", "        self._rnd = random_nb", "break", "R-REPR.a"),
-    ("fields_swapped", "pydcop/algorithms/mgm2.py", "        self._accept = accept\n        self._value = value", "        self._accept = value\n        self._value = accept", "break", "R-REPR.a"),
+    ("fields_swapped", "pydcop/algorithms/mgm2.py", "            self._value = value\n            self._gain = gain\n        else:", "            self._value = gain\n            self._gain = value\n        else:", "break", "R-REPR.a"),
     ("new_param_no_field", "pydcop/algorithms/dsa.py", "    def __init__(self, value):\n        super().__init__(\"dsa_value\", None)\n        self._value = value",
      "    def __init__(self, value, cycle=0):\n        super().__init__(\"dsa_value\", None)\n        self._value = value\n        self.cycle = cycle", "break", "R-REPR.a"),
     ("link_roles_swapped", "pydcop/computations_graph/factor_graph.py", "        return FactorGraphLink(from_repr(r['factor']),\n                               from_repr(r['variable']))",
@@ -586,7 +586,7 @@ VARIANTS = [
     ("order_links_not_reattached", "pydcop/computations_graph/ordered_graph.py", "        node.links.extend(order_links)\n", "", "break", "R-REPR.d"),
     ("order_links_not_written", "pydcop/computations_graph/ordered_graph.py", "        r[\"order_links\"] = simple_repr(\n            [l for l in self.links if l.type in (\"previous\", \"next\")]\n        )\n", "", "break"),
     ("terminate_fields_back", "pydcop/algorithms/syncbb.py", "SyncBBTerminateMessage = message_type(\"terminate\", [])", "SyncBBTerminateMessage = message_type(\"terminate\", [\"current_path\", \"ub\"])", "break", "R-PROTO.c"),
-    ("msg_ctor_missing_arg", "pydcop/algorithms/mgm.py", "MgmGainMessage(self._gain, self._random_nb)", "MgmGainMessage(self._gain)", "break", "R-PROTO.c"),
+    ("msg_ctor_missing_arg", "pydcop/algorithms/mgm.py", "MgmGainMessage(self._gain, self.__random__)", "MgmGainMessage(self._gain)", "break", "R-PROTO.c"),
     ("discovery_msg_missing_field", "pydcop/infrastructure/discovery.py", "PublishReplicaMessage(replica, agent, True))", "PublishReplicaMessage(replica, agent))", "break", "R-PROTO.c"),
     ("stamp_another_attr", "pydcop/algorithms/dsatuto.py", "    def on_start(self):\n", "    def _stamp(self, msg):\n        msg.origin = self.name\n        return msg\n\n    def on_start(self):\n", "break", "R-REPR.d"),
     ("http_header_renamed", _CM, "                    \"dest-comp\": msg.dest_comp,\n", "                    \"dest-computation\": msg.dest_comp,\n", "break", "R-WIRE.http"),
@@ -600,7 +600,7 @@ VARIANTS = [
     # neutral
     ("n_reorder_getstate", _O, "            self._default_route,\n            self._routes,\n        )\n\n    def __setstate__(self, state):\n        (\n            self._name,\n            self._hosting_costs,\n            self._default_hosting_cost,\n            self._attr,\n            self._default_route,\n            self._routes,\n        ) = state",
      "            self._routes,\n            self._default_route,\n        )\n\n    def __setstate__(self, state):\n        (\n            self._name,\n            self._hosting_costs,\n            self._default_hosting_cost,\n            self._attr,\n            self._routes,\n            self._default_route,\n        ) = state", "neutral"),
-    ("n_kw_ctor", "pydcop/algorithms/mgm.py", "MgmGainMessage(self._gain, self._random_nb)", "MgmGainMessage(value=self._gain, random_nb=self._random_nb)", "neutral"),
+    ("n_kw_ctor", "pydcop/algorithms/mgm.py", "MgmGainMessage(self._gain, self.__random__)", "MgmGainMessage(value=self._gain, random_nb=self.__random__)", "neutral"),
     ("n_decoder_keywords", "pydcop/computations_graph/factor_graph.py", "        return FactorGraphLink(from_repr(r['factor']),\n                               from_repr(r['variable']))",
      "        return FactorGraphLink(variable_node=from_repr(r['variable']),\n                               factor_node=from_repr(r['factor']))", "neutral"),
 ]
